@@ -182,6 +182,7 @@ def canon_union(msg: str) -> str:
 _ITEM = r"(?:[bBrRuU]{0,2}'[^'\n]*'|[bBrRuU]{0,2}\"[^\"\n]*\"|[\w.<>-]+)"
 _RUN_RE = re.compile(rf"{_ITEM}(?:, {_ITEM})+")
 _ADDR_RE = re.compile(r"\b0x[0-9a-fA-F]{6,}\b")
+_PROTO_RE = re.compile(r" \(Protocol with members [^)]*\)")
 
 
 def canon_names(msg: str) -> str:
@@ -194,6 +195,9 @@ def _abstract(line: str) -> str:
     s = re.sub(r" \(code: \w+\)$", "", s)
     if s.startswith("Revealed type is"):
         return "Revealed type is"
+    s = re.sub(r"^In call to [^:]*: ", "", s)
+    s = re.sub(r"\((?:[^()]|\([^()]*\))*\) -> \S.*$", "(SIG)", s)
+    s = re.sub(r"^.*?(?= has no attribute | is not a )", "T", s)
     s = re.sub(r"[bBrRuU]{0,2}'[^']*'|[bBrRuU]{0,2}\"[^\"]*\"", "N", s)
     s = re.sub(r"<M>\.[\w.]+|\b[A-Za-z_]\w*\.\w+[\w.]*", "Q", s)
     s = _RUN_RE.sub("N*", s)
@@ -244,37 +248,37 @@ def classify(ra, rb):
     if ca == cb:
         i = next(i for i in range(len(A)) if A[i] != B[i])
         return A[i][0], "order-of-diagnostics", "", A[i], B[i]
-    strip_addr = lambda m: _ADDR_RE.sub("0xADDR", m)  # noqa: E731
-    for kind, fn in (
-        ("content", strip_addr),
-        ("union-member-order", canon_union),
-        ("listed-names-order", lambda m: canon_names(canon_union(m))),
-    ):
-        A2 = [(d[0], d[1], d[2], fn(str(d[3]))) for d in A]
-        B2 = [(d[0], d[1], d[2], fn(str(d[3]))) for d in B]
-        if collections.Counter(A2) == collections.Counter(B2):
-            i = next(i for i in range(len(A)) if A[i] not in cb)
-            db = next((B[j] for j in range(len(B)) if B2[j] == A2[i] and B[j] not in ca), None)
-            if kind == "content":
-                text = str(A[i][3])
-                m = _ADDR_RE.search(text)
-                internal = "<pyanalyze." in text[: m.start()] and text.rfind("<pyanalyze.", 0, m.start()) > text.rfind(">", 0, m.start())
-                cls = "object address in message text, " + ("repr of a pyanalyze-internal object" if internal else "repr of an object of the checked program")
-            elif kind == "listed-names-order":
-                cls = msg_class(A[i], db)
-            else:
-                cls = ""
-            return A[i][0], kind, cls, A[i], db
-    only_a = [d for d in A if d not in cb]
-    only_b = [d for d in B if d not in ca]
-    da = only_a[0] if only_a else None
-    db = only_b[0] if only_b else None
-    # pair da with the diagnostic of B at the same position and code, when there is one
-    if da is not None:
-        same_pos = [d for d in only_b if d[:3] == da[:3]]
-        db = same_pos[0] if same_pos else None
-    first = da if da is not None else db
-    return first[0], "content", msg_class(da, db), da, db
+    # first diagnostic (in emission order) of A that B does not have, and B's diagnostic at the same place
+    only_a = [d for d in A if ca[d] > cb[d]]
+    only_b = [d for d in B if cb[d] > ca[d]]
+    if not only_a:
+        db = only_b[0]
+        return db[0], "content", msg_class(None, db), None, db
+    da = only_a[0]
+    db = next((d for d in only_b if d[:3] == da[:3]), None)
+    if db is None:
+        return da[0], "content", msg_class(da, None), da, None
+    ma, mb = str(da[3]), str(db[3])
+    if _ADDR_RE.sub("0xADDR", ma) == _ADDR_RE.sub("0xADDR", mb):
+        m = _ADDR_RE.search(ma)
+        internal = text_inside_internal_repr(ma, m.start())
+        cls = "object address in message text, " + ("repr of a pyanalyze-internal object" if internal else "repr of an object of the checked program")
+        return "*", "content", cls, da, db
+    ma, mb = _ADDR_RE.sub("0xADDR", ma), _ADDR_RE.sub("0xADDR", mb)
+    if len(_PROTO_RE.findall(ma)) != len(_PROTO_RE.findall(mb)) and _PROTO_RE.sub("", ma) == _PROTO_RE.sub("", mb):
+        # TypedValue.__str__ prints the member list only when the Value object's lazily-filled type object is there
+        return "*", "content", "protocol member list shown or hidden", da, db
+    ma, mb = canon_union(ma), canon_union(mb)
+    if ma == mb:
+        return "*", "union-member-order", "", da, db
+    if canon_names(ma) == canon_names(mb):
+        return da[0], "listed-names-order", msg_class(da, db), da, db
+    return da[0], "content", msg_class(da, db), da, db
+
+
+def text_inside_internal_repr(text: str, pos: int) -> bool:
+    i = text.rfind("<pyanalyze.", 0, pos)
+    return i >= 0 and text.rfind(">", i, pos) < 0
 
 
 # codes emitted by one and the same loop are one mechanism (NameCheckVisitor._check_function_unused_vars)
@@ -399,12 +403,22 @@ def inproc_repeats(src: str, mode: str, n: int, rng: random.Random, kw=None) -> 
     return out
 
 
+def repeat_diffs(rs: list) -> list:
+    """Differences among runs on a WARM Checker. rs[0] is the run that warmed the fresh Checker: a difference between
+    rs[0] and rs[1] may be an effect of the Checker's state (axis `history`, with P itself as the history)."""
+    out = []
+    warm = rs[1:]
+    for r in warm[1:]:
+        c = classify(warm[0], r)
+        if c is not None:
+            out.append(c)
+    return out
+
+
 def reproduces_inproc(src: str, mode: str, suffix: str, n: int, rng: random.Random):
-    """Try to see the difference `suffix` between two runs on ONE Checker in this process."""
-    rs = inproc_repeats(src, mode, n, rng)
-    for r in rs[1:]:
-        c = classify(rs[0], r)
-        if c is not None and suffix_of(c) == suffix:
+    """Try to see the difference `suffix` between two runs on ONE warm Checker in this process."""
+    for c in repeat_diffs(inproc_repeats(src, mode, n, rng)):
+        if suffix_of(c) == suffix:
             return c
     return None
 
@@ -516,9 +530,23 @@ def lists_items(r) -> bool:
 # the shard
 
 
+def plan_envs(ctx, rng) -> list:
+    """E0 (base seed, untouched layout); layouts with the base seed; other seeds; and for the first two other seeds a
+    second interpreter with another layout (so that seed-determined and layout-determined can be told apart)."""
+    seeds = seed_envs(rng, ctx.pick(5, 14))
+    dups = []
+    for e, lay in zip(seeds[: ctx.pick(2, 4)], layout_envs(rng, ctx.pick(2, 4))):
+        d = dict(lay)
+        d["hashseed"] = e["hashseed"]
+        if not d.get("junk_import"):
+            d.update(junk_import=rng.randrange(1000, 100000), junk_parse=rng.randrange(100, 3000))
+        dups.append(d)
+    return [base_env()] + layout_envs(rng, ctx.pick(3, 6)) + seeds + dups
+
+
 def shard(ctx) -> None:
     rng = ctx.rng
-    R = ctx.pick(5, 6)
+    R = ctx.pick(6, 7)
     progs = []
     # (c) repeated runs on one fresh Checker; also validates that the program imports standalone
     for p in build_corpus(ctx):
@@ -532,29 +560,36 @@ def shard(ctx) -> None:
             continue
         progs.append(p)
         ctx.count("inproc_repeat_runs", R)
-    for p in progs:
+    for pi, p in enumerate(progs):
         p.ndiags = len(p.rep[0])
-        for r in p.rep[1:]:
-            c = classify(p.rep[0], r)
-            if c is not None:
-                p.found.setdefault(suffix_of(c), ("repeat", c, {"attempts": R}))
+        for c in repeat_diffs(p.rep):
+            p.found.setdefault(suffix_of(c), ("repeat", c, {"attempts": R}))
+        # first run on the fresh Checker vs second run: the history is P itself
+        p.hist.append(("self", [pi], p.rep[1]))
+        ctx.count("histories")
 
-    # (d) histories: prefix order / reverse order on one shared Checker each; plus related-program histories
+    # (d) histories: prefix order / warm-up + reverse order on one shared Checker each; plus related-program histories
     by_mode: dict = {}
     for i, p in enumerate(progs):
         by_mode.setdefault(p.mode, []).append(i)
     for mode, idxs in by_mode.items():
-        for direction, order in (("prefix", idxs), ("reversed", idxs[::-1])):
+        for direction, order in (("prefix", idxs), ("warmup+reversed", idxs[::-1])):
             kw = fresh_kwargs(mode)
             done: list = []
+            if direction != "prefix":
+                # a well-typed program that uses the builtins / typeshed classes the corpus uses: fills the Checker's
+                # caches (type objects, argspecs, protocol cache) and the lazily-filled fields of shared Value objects
+                check_inproc(corpus.WARMUP, mode, kw)
+                done.append(-1)
             for i in order:
                 p = progs[i]
                 _junk(rng)
                 r = check_inproc(p.src, p.mode, kw)
-                p.hist.append((f"{direction}-{len(done)}", list(done), r))
+                if done:
+                    p.hist.append((f"{direction}-{len(done)}", list(done), r))
+                    ctx.count("histories")
                 done.append(i)
-                ctx.count("histories")
-                ctx.count("history_programs_checked", 1)
+                ctx.count("history_programs_checked")
     n_rel = ctx.pick(3, 25)
     hlen = ctx.pick(5, 20)
     for i in rng.sample(range(len(progs)), min(n_rel, len(progs))):
@@ -571,8 +606,8 @@ def shard(ctx) -> None:
         ctx.count("histories")
         ctx.count("related_histories")
 
-    # (a)/(b) fresh interpreters: one child per environment, each checking the whole list
-    envs = [base_env()] + layout_envs(rng, ctx.pick(3, 6)) + seed_envs(rng, ctx.pick(5, 15))
+    # (a)/(b) fresh interpreters: one child per environment, each checking the whole list in the same order
+    envs = plan_envs(ctx, rng)
     jobs = [{"src": p.src, "mode": p.mode} for p in progs]
     ok_envs = []
     for k, env in enumerate(envs):
@@ -583,94 +618,103 @@ def shard(ctx) -> None:
             ctx.note(f"child {env_desc(env)} failed: {e}")
             continue
         ctx.count("child_environments")
-        ctx.histo("child_env_kinds", ("seed" if env["hashseed"] != BASE_SEED else "layout") + f":malloc={env.get('malloc') or 'default'}:gc={env.get('gc', True)}")
+        ctx.histo("child_env_kinds", f"seed={'base' if env['hashseed'] == BASE_SEED else 'other'}:malloc={env.get('malloc') or 'default'}:gc={env.get('gc', True)}:junk={'yes' if env.get('junk_import') else 'no'}")
         ok_envs.append(k)
         for p, r in zip(progs, rs):
             p.child[k] = r[0]
-    base_k = ok_envs[0] if ok_envs and ok_envs[0] == 0 else None
+    groups: dict = {}
+    for k in ok_envs:
+        groups.setdefault(envs[k]["hashseed"], []).append(k)
 
-    # attribution: layout, then hashseed
-    confirm: dict = {}  # env index -> list of (prog index, suffix, classification)
-    if base_k is not None:
-        for pi, p in enumerate(progs):
-            r0 = p.child[0]
-            for k in ok_envs[1:]:
-                c = classify(r0, p.child[k])
-                if c is None:
+    def escalate(p, suf, first_seen):
+        got = reproduces_inproc(p.src, p.mode, suf, ESCALATE_REPEATS, rng)
+        ctx.count("inproc_repeat_runs", ESCALATE_REPEATS)
+        ctx.count("escalations")
+        if got is not None:
+            p.found[suf] = ("repeat", got, {"attempts": ESCALATE_REPEATS, "first_seen": first_seen})
+            return True
+        return False
+
+    # layout: interpreters with the same seed disagree
+    for seed, ks in groups.items():
+        for p in progs:
+            for k in ks[1:]:
+                c = classify(p.child[ks[0]], p.child[k])
+                if c is None or suffix_of(c) in p.found:
+                    continue
+                if not escalate(p, suffix_of(c), "layout"):
+                    p.found[suffix_of(c)] = ("layout", c, {"envs": [envs[ks[0]], envs[k]]})
+    # hashseed: interpreters with different seeds disagree (and those with the same seed agree)
+    need_confirm: dict = {}
+    if BASE_SEED in groups:
+        k0 = groups[BASE_SEED][0]
+        for seed, ks in groups.items():
+            if seed == BASE_SEED:
+                continue
+            for pi, p in enumerate(progs):
+                c = classify(p.child[k0], p.child[ks[0]])
+                if c is None or suffix_of(c) in p.found:
                     continue
                 suf = suffix_of(c)
-                if suf in p.found:
+                if escalate(p, suf, "hashseed"):
                     continue
-                axis = "layout" if envs[k]["hashseed"] == BASE_SEED else "hashseed"
-                got = reproduces_inproc(p.src, p.mode, suf, ESCALATE_REPEATS, rng)
-                ctx.count("inproc_repeat_runs", ESCALATE_REPEATS)
-                ctx.count("escalations")
-                if got is not None:
-                    p.found[suf] = ("repeat", got, {"attempts": ESCALATE_REPEATS, "first_seen": axis})
-                elif axis == "layout":
-                    p.found[suf] = ("layout", c, {"envs": [envs[0], envs[k]]})
+                extra = {"envs": [envs[k0], envs[ks[0]]]}
+                if len(ks) > 1:
+                    stable = all(p.child[k] == p.child[ks[0]] for k in ks[1:])
+                    p.found[suf] = ("hashseed" if stable else "layout", c, extra)
                 else:
-                    p.found[suf] = ("hashseed?", c, {"envs": [envs[0], envs[k]]})
-                    confirm.setdefault(k, []).append((pi, suf))
-        # a difference seen only between seeds is confirmed by two more interpreters with that seed: if they
-        # disagree with each other the cause is not the seed
-        for k, items in sorted(confirm.items()):
-            pis = sorted({pi for pi, _ in items})
-            again = []
-            for t in range(2):
-                env2 = dict(envs[k], junk_import=rng.randrange(1000, 100000), junk_parse=rng.randrange(100, 3000), junk_seed=rng.randrange(1 << 30))
-                try:
-                    again.append(run_child(env2, [jobs[pi] for pi in pis]))
-                    ctx.count("child_environments")
-                    ctx.count("confirmation_children")
-                except ChildFailed as e:
-                    ctx.note(f"confirmation child failed: {e}")
+                    p.found[suf] = ("hashseed", c, extra)
+                    need_confirm.setdefault(ks[0], []).append((pi, suf))
+        # seeds observed once only: one more interpreter with that seed, same program list (same histories)
+        for k, items in sorted(need_confirm.items())[: ctx.pick(2, 4)]:
+            env2 = dict(envs[k], junk_import=rng.randrange(1000, 100000), junk_parse=rng.randrange(100, 3000), junk_seed=rng.randrange(1 << 30))
+            try:
+                again = run_child(env2, jobs)
+                ctx.count("child_environments")
+                ctx.count("confirmation_children")
+            except ChildFailed as e:
+                ctx.note(f"confirmation child failed: {e}")
+                continue
             for pi, suf in items:
                 p = progs[pi]
                 _, c, extra = p.found[suf]
-                rs = [a[pis.index(pi)][0] for a in again]
-                stable = all(r == p.child[k] for r in rs)
-                p.found[suf] = ("hashseed" if stable else "layout", c, extra)
+                if again[pi][0] != p.child[k]:
+                    p.found[suf] = ("layout", c, extra)
 
-    # history attribution
+    # history attribution (baseline: first run on a fresh Checker)
     for pi, p in enumerate(progs):
-        seen = set(p.rep)
         for desc, H, r in p.hist:
-            if r in seen:
-                continue
             c = classify(p.rep[0], r)
+            if c is None or suffix_of(c) in p.found:
+                continue
             suf = suffix_of(c)
-            if suf in p.found:
+            if escalate(p, suf, "history"):
                 continue
-            got = reproduces_inproc(p.src, p.mode, suf, ESCALATE_REPEATS, rng)
-            ctx.count("inproc_repeat_runs", ESCALATE_REPEATS)
-            ctx.count("escalations")
-            if got is not None:
-                p.found[suf] = ("repeat", got, {"attempts": ESCALATE_REPEATS, "first_seen": "history"})
-                continue
-            hsrcs = [progs[j].src for j in H]
+            hsrcs = [corpus.WARMUP if j == -1 else progs[j].src for j in H]
             c2, hmin = history_experiment(p.src, p.mode, hsrcs, suf, minimise=True)
+            ctx.count("history_confirmations")
             if c2 is not None:
                 p.found[suf] = ("history", c2, {"history": hmin})
             else:
-                p.found[suf] = ("repeat", c, {"attempts": ESCALATE_REPEATS, "first_seen": "history", "note": "seen once after a history; the same history did not reproduce it"})
+                p.found[suf] = ("repeat", c, {"attempts": ESCALATE_REPEATS, "first_seen": "history",
+                                              "note": "seen once after a history; the same history did not reproduce it"})
 
     # (e) the CLI, sampled
-    do_cli = ctx.pick(ctx.shard % 4 == 0, True)
-    if do_cli:
+    if ctx.pick(ctx.shard % 4 == 0, True):
         scratch = os.environ.get("VERIF_SCRATCH") or os.path.join(HERE, "evidence-scratch")
         for g in range(ctx.pick(1, 2)):
             cands = [i for i, p in enumerate(progs) if p.source in ("targeted", "illtyped", "proggen")]
             chosen = rng.sample(cands, min(ctx.pick(4, 6), len(cands)))
             if g == 1:
-                # a group with no diagnostics at all: the only case in which --parallel can be compared when it
-                # cannot return failures
+                # a group without any diagnostic: the only case in which --parallel can be compared at all while its
+                # workers cannot return failures
                 files = {f"c10m_{ctx.shard}_{g}_{j}.py": f"def f{j}(x: int) -> int:\n    return x + {j}\n" for j in range(3)}
-                owner = {}
+                owner: dict = {}
             else:
                 files = {f"c10m_{ctx.shard}_{g}_{j}.py": progs[i].src for j, i in enumerate(chosen)}
                 owner = {f"c10m_{ctx.shard}_{g}_{j}.py": i for j, i in enumerate(chosen)}
-            singles = sorted(files)[: ctx.pick(1, 2)]
+            # the LAST file (sorted order) has the longest history inside the directory run
+            singles = sorted(files)[::-1][: ctx.pick(1, 2)]
             diffs, n = cli_compare(files, os.path.join(scratch, f"c10cli-{ctx.shard}-{g}"), singles)
             ctx.count("cli_invocations", n)
             ctx.count("cli_groups")
@@ -678,51 +722,53 @@ def shard(ctx) -> None:
             for nm, variant, c, argvs in diffs:
                 suf = suffix_of(c)
                 p = progs[owner[nm]] if nm in owner else None
-                if p is not None and any(s == suf and a != "file-order" for s, (a, _, _) in p.found.items()):
+                ctx.histo("cli_differences", f"{variant}:{suf}"[:120])
+                if p is not None and suf in p.found and p.found[suf][0] != "file-order":
                     continue
                 if p is not None and c[0] != "<cli-crash>":
-                    got = reproduces_inproc(p.src, "default", suf, ESCALATE_REPEATS, rng)
-                    ctx.count("inproc_repeat_runs", ESCALATE_REPEATS)
-                    if got is not None:
-                        p.found[suf] = ("repeat", got, {"attempts": ESCALATE_REPEATS, "first_seen": "file-order"})
+                    if escalate(p, suf, "file-order"):
+                        continue
+                    before = [files[x] for x in sorted(files) if x < nm]
+                    c2, hmin = history_experiment(p.src, "default", before, suf, minimise=True)
+                    if c2 is not None:
+                        p.found[suf] = ("history", c2, {"history": hmin, "mode": "default", "first_seen": "file-order"})
                         continue
                 wit_files = files if c[0] != "<cli-crash>" else {nm: files[nm]}
-                if c[0] == "<cli-crash>":
-                    # smallest reproducer: that one file alone
-                    pass
                 report(ctx, "file-order", c, {"files": wit_files, "cli": list(argvs), "variant": variant, "file": nm},
-                       family=(p.family if p else "clean"), src=files[nm])
+                       family=(p.family if p else "clean"), src=files[nm], mode="default")
 
     # report + evidence
     for p in progs:
+        fam = p.family if p.source != "test-snippet" else "test-snippet"
         ctx.count("evaluations")
         ctx.count("programs")
         ctx.histo("programs_by_source", p.source)
-        ctx.histo("programs_by_family", p.family if p.source != "test-snippet" else "test-snippet")
+        ctx.histo("programs_by_family", fam)
         ctx.histo("mode", p.mode)
         ctx.histo("diagnostics_per_program", str(min(p.ndiags, 10)) + ("+" if p.ndiags >= 10 else ""))
         for d in p.rep[0]:
             ctx.histo("codes_seen", str(d[0]))
         all_r = list(p.rep) + [h[2] for h in p.hist] + list(p.child.values())
-        n_env = len(p.child) + 1 + len(p.hist)  # child interpreters + this process fresh + histories
+        n_env = len(p.child) + 1 + len(p.hist)  # child interpreters + this process (fresh Checker) + histories
         ctx.count("environments_compared", n_env)
         ctx.count("renderings_obtained", len(all_r))
         nd = len(set(all_r))
         ctx.count("distinct_renderings", nd)
-        ctx.histo("distinct_renderings_per_program", str(nd))
+        ctx.histo("distinct_renderings_per_program", str(min(nd, 12)))
         ctx.histo("environments_per_program", str(n_env))
         if p.ndiags >= 2 or lists_items(p.rep[0]):
             ctx.nontrivial(p.src)
         if nd > 1:
             ctx.count("unstable_programs")
-            ctx.histo("unstable_by_family", p.family if p.source != "test-snippet" else "test-snippet")
+            ctx.histo("unstable_by_family", fam)
             if not p.found:
-                ctx.violation("internal|unattributed-difference", "renderings differ but no axis was attributed", {"axis": "repeat", "source": p.src, "mode": p.mode})
+                ctx.violation("internal|unattributed-difference", "renderings differ but no axis was attributed",
+                              {"axis": "repeat", "source": p.src, "mode": p.mode})
         else:
             ctx.count("stable_programs")
         for suf, (axis, c, extra) in sorted(p.found.items()):
-            ctx.histo("findings_by_axis_family", f"{axis}:{p.family if p.source != 'test-snippet' else 'test-snippet'}")
-            report(ctx, axis, c, extra, family=p.family, src=p.src, mode=p.mode)
+            ctx.histo("findings_by_axis_family", f"{axis}|{suf.split('|')[1]}:{fam}")
+            report(ctx, axis, c, extra, family=p.family, src=p.src, mode=extra.get("mode", p.mode))
         if len(ctx.samples) < 2 and p.ndiags >= 2:
             ctx.sample({"family": p.family, "source": p.src[:600], "environments": n_env, "distinct_renderings": nd})
 
@@ -800,19 +846,23 @@ def replay(witness):
             return key, lst[0]["what"]
 
     if axis == "file-order":
+        import shutil
+
         files = witness["files"]
         workdir = os.path.join(os.environ.get("VERIF_SCRATCH") or os.path.join(HERE, "evidence-scratch"), f"c10replay-{digest(files)}-{os.getpid()}")
         try:
-            diffs, _ = cli_compare(files, workdir, sorted(files)[:2])
+            diffs, _ = cli_compare(files, workdir, sorted(files)[::-1][:2])
         finally:
-            import shutil
-
             shutil.rmtree(workdir, ignore_errors=True)
         for nm, variant, c, argvs in diffs:
             if c[0] != "<cli-crash>":
                 got = reproduces_inproc(files[nm], "default", suffix_of(c), ESCALATE_REPEATS, rng)
                 if got is not None:
                     add("repeat", got, {"attempts": ESCALATE_REPEATS})
+                    continue
+                c2, hmin = history_experiment(files[nm], "default", [files[x] for x in sorted(files) if x < nm], suffix_of(c))
+                if c2 is not None:
+                    add("history", c2, {"history": hmin})
                     continue
             add("file-order", c, {"files": files, "cli": list(argvs), "variant": variant, "file": nm})
         return result()
@@ -822,47 +872,50 @@ def replay(witness):
         rs = inproc_repeats(src, mode, REPLAY_ATTEMPTS, rng)
     except Exception:  # noqa: BLE001
         return None
-    for r in rs[1:]:
-        c = classify(rs[0], r)
-        if c is not None:
-            add("repeat", c, {"attempts": REPLAY_ATTEMPTS})
+    for c in repeat_diffs(rs):
+        add("repeat", c, {"attempts": REPLAY_ATTEMPTS})
     if axis == "repeat" or (want in found):
         return result()
     if axis == "history":
-        c, hmin = history_experiment(src, mode, witness.get("history", []), None)
-        if c is not None:
-            add("history", c, {"history": hmin})
+        for _ in range(3):
+            c, hmin = history_experiment(src, mode, witness.get("history", []), want)
+            if c is not None:
+                add("history", c, {"history": hmin})
+                break
         return result()
-    # layout / hashseed
+    # layout / hashseed: the two recorded environments, then more layouts with the first seed, then more seeds
     envs = [dict(e) for e in witness.get("envs", [])] or [base_env()]
     b = envs[0]
-    extra_layout = []
-    for e in layout_envs(rng, 3):
-        e["hashseed"] = b["hashseed"]
-        extra_layout.append(e)
-    extra_seed = [dict(b, hashseed=e["hashseed"]) for e in seed_envs(rng, 4)]
-    todo = [b] + extra_layout + envs[1:] + [e for e in extra_seed if e["hashseed"] not in {x["hashseed"] for x in envs}]
+    lay = [dict(e, hashseed=b["hashseed"]) for e in layout_envs(rng, 3)]
+    more_seeds = [dict(b, hashseed=e["hashseed"]) for e in seed_envs(rng, 5) if e["hashseed"] not in {x["hashseed"] for x in envs}]
     job = [{"src": src, "mode": mode}]
-    rs2 = []
-    for e in todo:
+
+    def child(e):
         try:
-            rs2.append((e, run_child(e, job)[0][0]))
+            return run_child(e, job)[0][0]
         except ChildFailed:
-            continue
-    if not rs2:
+            return None
+
+    r0 = child(b)
+    if r0 is None:
         return None
-    e0, r0 = rs2[0]
-    for e, r in rs2[1:]:
-        c = classify(r0, r)
+    for e in lay:
+        r = child(e)
+        c = classify(r0, r) if r is not None else None
+        if c is not None and suffix_of(c) not in found:
+            add("layout", c, {"envs": [b, e]})
+    if want in found:
+        return result()
+    for e in envs[1:] + more_seeds:
+        r = child(e)
+        c = classify(r0, r) if r is not None else None
         if c is None or suffix_of(c) in found:
             continue
-        if e["hashseed"] == e0["hashseed"]:
-            add("layout", c, {"envs": [e0, e]})
-        else:
-            # confirmed by a second interpreter with that seed
-            try:
-                r2 = run_child(dict(e, junk_import=5000, junk_parse=500, junk_seed=7), job)[0][0]
-            except ChildFailed:
-                r2 = r
-            add("hashseed" if r2 == r else "layout", c, {"envs": [e0, e]})
+        if e["hashseed"] == b["hashseed"]:
+            add("layout", c, {"envs": [b, e]})
+            continue
+        r2 = child(dict(e, junk_import=5000, junk_parse=500, junk_seed=7))
+        add("hashseed" if (r2 is None or r2 == r) else "layout", c, {"envs": [b, e]})
+        if want in found:
+            break
     return result()
